@@ -135,6 +135,8 @@ def gen_cases(seed, chunk, n, tier):
             exp_idx = [ix.conj() for ix in x.indices]
             exp_charge = gen.py_neg(sym, x.charge)
         elif op == "dagger":
+            if rng.random() < 0.3:
+                p = {"prop": True}  # the .H property
             exp = np.conj(np.transpose(D))
             exp_idx = [ix.conj() for ix in x.indices][::-1]
             exp_charge = gen.py_neg(sym, x.charge)
@@ -321,6 +323,31 @@ def vec_cases(seed, chunk, n, tier):
                 except Exception as ex:  # noqa
                     checks.append(f"{f} via {entry}: raised {type(ex).__name__}: {ex}")
         s = rng.choice([2.0, 4.0, -2.0])
+        # in-place forms must give the out-of-place value and leave the other operand alone
+        def _ip(fn):
+            z = v.copy()
+            r = fn(z)
+            return r
+        import operator as _op
+        inplace = {
+            "v+=w": (lambda: _ip(lambda z: _op.iadd(z, w)), dv + dw), "v-=w": (lambda: _ip(lambda z: _op.isub(z, w)), dv - dw),
+            "v*=w": (lambda: _ip(lambda z: _op.imul(z, w)), dv * dw), "v/=w": (lambda: _ip(lambda z: _op.itruediv(z, w)), dv / dw),
+            "v+=s": (lambda: _ip(lambda z: _op.iadd(z, 2.0)), dv + 2.0), "v-=s": (lambda: _ip(lambda z: _op.isub(z, 2.0)), dv - 2.0),
+            "v*=s": (lambda: _ip(lambda z: _op.imul(z, 2.0)), dv * 2.0), "v/=s": (lambda: _ip(lambda z: _op.itruediv(z, 2.0)), dv / 2.0),
+            "v**=2": (lambda: _ip(lambda z: _op.ipow(z, 2)), dv ** 2),
+        }
+        for name, (fn, e) in inplace.items():
+            count += 1
+            try:
+                w0 = np.concatenate([w.blocks[c] for c in sorted(w.blocks)]).copy()
+                got = fn().to_dense()
+                if not np.array_equal(got, e):
+                    checks.append(f"{name}: differs from numpy on the dense vector")
+                if not np.array_equal(np.concatenate([w.blocks[c] for c in sorted(w.blocks)]), w0) or \
+                        not np.array_equal(np.concatenate([v.blocks[c] for c in sorted(v.blocks)]), dv):
+                    checks.append(f"{name}: modified an operand it was not asked to modify")
+            except Exception as ex:  # noqa
+                checks.append(f"{name}: raised {type(ex).__name__}: {ex}")
         ariths = {
             "v+w": (lambda: v + w, dv + dw), "v-w": (lambda: v - w, dv - dw), "v*w": (lambda: v * w, dv * dw),
             "v/w": (lambda: v / w, dv / dw), "v+s": (lambda: v + s, dv + s), "s+v": (lambda: s + v, s + dv),
